@@ -304,6 +304,20 @@ class Evaluator:
                 cont[key] = value
             else:
                 raise Unsupported("subscript store on %r" % (cont,))
+        elif isinstance(target, (ast.Tuple, ast.List)) and any(isinstance(t, ast.Starred) for t in target.elts):
+            stars = [i for i, t in enumerate(target.elts) if isinstance(t, ast.Starred)]
+            if len(stars) != 1 or not isinstance(value, (tuple, list)):
+                raise Unsupported("starred unpacking at line %d" % target.lineno)
+            i = stars[0]
+            n_after = len(target.elts) - i - 1
+            if len(value) < len(target.elts) - 1:
+                raise Raised("ValueError")
+            value = list(value)
+            for t, v in zip(target.elts[:i], value[:i]):
+                self.assign(t, v, env)
+            self.assign(target.elts[i].value, value[i:len(value) - n_after], env)
+            for t, v in zip(target.elts[i + 1:], value[len(value) - n_after:]):
+                self.assign(t, v, env)
         elif isinstance(target, (ast.Tuple, ast.List)):
             if not isinstance(value, (tuple, list)) or len(value) != len(target.elts):
                 raise Unsupported("unpacking at line %d" % target.lineno)
